@@ -85,6 +85,26 @@ CHECKS = {
         technique="TLA+ design spec ZipperWork (one matchUsers call with capped fingerprint buckets, all user sequences) model-checked by TLC; work-bound contract WorkContract validated by TLC on the comparison counters of the real zipper (hook H3) and on completion/guard facts of the real pipeline over adversarial families at doubling sizes",
         text="TLC proves comparisons <= |usersOld| * Cap, lock-step maps and sound pairing for every old/new user sequence (<=3, thorough <=4 users) and shows the bound fails without the cap; the real zipper is run on generated (old,new) pairs of eight adversarial families up to 4000 (thorough 16000) operations, 90 nested loops, 8000 blocks, 4 MB literals, with per-call and per-diff comparison counts validated against bounds in the logged sizes; the whole fingerprint+topology pipeline must complete without panic and apply its documented size guards.",
         note=TRUST + "; only the zipper has an operation counter; other stages are bounded through completion within a 120 s backstop; fuzz-mutated sources not included"),
+    "C12": dict(
+        level="model_checking", ref="3/C12",
+        technique="TLA+ oracle Loop (small-step semantics of one counted loop: every shape x argument vector enumerated by TLC, terminating behaviours exported) bound to Go by an instrumented native twin; claims of the real loop analysis (DetectLoops + AnalyzeSCEV) evaluated on the arguments and validated by TLC against LoopContract (IVClaimOK, TripClaimOK)",
+        text="TLC enumerates all loops top/bottom-tested x {< <= > >= !=} x stay/break polarity x IV on either side x steps +-1..3 (thorough +-5) x {plain, continue, conditional update, i = c - i} x {int, uint8} over 4x5 (thorough 5x6) argument vectors; every terminating behaviour is confirmed by running the generated Go twin, embedded alone, nested in an outer loop, followed by a sibling loop, and with constant bounds; all 44k (thorough 82k) claim sets of the real analysis are validated by TLC: an induction variable holds start + k*step (mod width) at the k-th header evaluation, a trip count that evaluates equals the number of body entries.",
+        note=TRUST + "; one known finding (uint8 loops whose variable wraps around) is printed, not raised"),
+    "C02": dict(
+        level="model_checking", ref="3/C02",
+        technique="TLA+ oracle MiniGo (evaluator with Go integer/IEEE-compare semantics over a bounded program grammar) + Catalogue (refactor edges model-checked by TLC to preserve behaviour on the whole input table: RefactorPreserves); every program and refactored/renamed/re-laid-out variant emitted as Go, evaluator bound to Go by a native twin, real fingerprints under both literal policies validated by TLC against FingerprintContract!C02OK",
+        text="TLC enumerates every program of 14 templates (branches, counted/nested/range loops, branches in loops, straight-line arithmetic, library calls, recursion, closures, strings, big literals, shared comparison, float comparison, multi-value call) and proves each catalogue refactoring (commuted operands of + and *, >=/> tests written as the opposite test with exchanged branches, both) behaviour-preserving; ~2000 (thorough: all) refactor and rename/layout/comment/position edges are fingerprinted by the real code in separately compiled files under the default and keep-all-literals policies and validated by TLC.",
+        note=TRUST + "; the quantifier is the bounded grammar; commuting call operands and flipping ==/!= are not claimed cosmetic"),
+    "C03": dict(
+        level="model_checking", ref="3/C03",
+        technique="TLA+ oracle Catalogue: TLC classifies every one-hole edit and every invalid refactoring (operands of - / % exchanged; flipped test whose result has a second use; flipped float test) as DIFF with a witness input or SAME; DIFF verdicts confirmed by native execution; real fingerprints validated by TLC against FingerprintContract!C03OK",
+        text="For ~11000 (thorough: all) edit edges between programs of the 14 templates TLC's evaluator decides whether the two functions differ on some input of the table, the native twin confirms the witness, and TLC checks that the real fingerprints differ under the keep-all-literals policy and under the default policy unless the edit only touches literals that policy documents as abstracted.",
+        note=TRUST + "; behavioural difference is decided on the finite input table (a SAME verdict is not used)"),
+    "C04": dict(
+        level="model_checking", ref="3/C02",
+        technique="TLA+ oracle Catalogue (every edit edge classified DIFF/SAME by TLC's MiniGo evaluator, DIFF confirmed natively); for every edge the old and the new version of one function are compiled separately and compared by the real cli.ComputeDiff (`sfw diff`), report lines validated by TLC against FingerprintContract!C04OK (DIFF => not preserved and no fingerprint match; copy => preserved, nothing added or removed)",
+        text="~9700 (thorough ~50000) old/new pairs from TLC's catalogue (one-hole edits incl. callee swaps and negated tests, exchanged if/else bodies, operands of - / % exchanged, invalid flips) under the same function name, a sample of them behind 2600 padding ifs (both versions beyond the 5000-block guard), and every base program, oversized functions and a file of rich Go shapes (select, goroutines, defer, closures, methods) against a separately compiled copy; every report line is validated by TLC.",
+        note=TRUST + "; literal-only edits of literals the default policy abstracts are excluded (C02 requires their fingerprints to be equal)"),
 }
 
 NOT_YET = {}
